@@ -33,7 +33,8 @@ CHECKS = {
          "declarative listing Ideal(m,T); TLC shows pool = Ideal for every history of sanctioned operations over 2 models x agents x,x,y x 2 types, and that every "
          "break of the mirror is caused by one of the named deviation actions F1/F2/F3/F6 (known findings; negative controls). Graph walks and random histories in "
          "plain/continuous/grid/line/2-D worlds are judged by TLC: the listing, its 'none' form and the environment order must equal the specification state after "
-         "every call; traces needing only listed deviations print KNOWN-FINDING, anything else is a violation."),
+         "every call; traces needing only listed deviations print KNOWN-FINDING, anything else is a violation. The population and listing operations recorded by "
+         "the tracer while the repository's tests run are validated transition-wise (Population_Suite.tla)."),
  "C04": ("World", "6 C04", "TLC explores join/leave/lookup with every error path (duplicate id, unknown id, out-of-bounds placement per axis and side) enabled in every "
          "reachable state of plain, continuous and grid worlds (rejected actions are UNCHANGED vars by construction; one-per-id, leave-always-enabled as invariants). "
          "Every edge of the error-injection graph is replayed on real environments with lookups of every id after each step; TLC compares len/iteration/lookup/listing "
@@ -128,15 +129,15 @@ def main():
         "setup_cmd": "./setup.sh",
         "hooks": {"guard": "ECAGENT_VERIF_TRACE", "enable": "checks drive the public API of /repo's working tree directly (sys.path, no build step); "
                   "harness/suite.py additionally runs the repository's own tests with ECAGENT_VERIF_TRACE=<file> so that ECAgent/_verif.py records "
-                  "scheduler and spatial operations with pre/post state for transition-wise validation",
-                  "baseline_off_cmd": BASE_OFF, "source_commits": ["0a6f2e2"], "add_only": True},
+                  "scheduler, spatial, population and component-listing operations with pre/post state for transition-wise validation",
+                  "baseline_off_cmd": BASE_OFF, "source_commits": ["0a6f2e2", "d3bb345"], "add_only": True},
         "engines": [{"name": "tlc", "path": "/verif/harness/tlc.py", "serves_properties": sorted(CHECKS),
                      "kind_free_text": "TLC 1.8.0 explicit-state model checker on /verif/spec/*.tla; batched trace validation (harness/judge.py)"}],
         "checks": checks,
         "not_applicable": na,
         "notes": "Exit codes: 0 held, 1 violation (VIOLATION line), 2 machinery failure. known_findings.json lists recorded findings and repaired defects. "
                  "`./check drift` (not registered for any property, never alarms) covers behaviour outside the listed properties: composition of "
-                 "Scheduler and World, deprecated aliases as refinements, further public API. seeded/ holds 120 independently produced breaking "
+                 "Scheduler and World, deprecated aliases as refinements, further public API. seeded/ holds 240 independently produced breaking "
                  "changes with their demonstrations and the outcome of the checks on each (tools/seedcheck.py).",
     }
     with open(os.path.join(VERIF, "MANIFEST.json"), "w") as f:
